@@ -178,11 +178,15 @@ def check_fill(b, M2):
                         edge_true = (v != 0)
                 if edge_true is None and blk.term.d['otherwise'] == s:
                     edge_true = [v for v, _ in blk.term.d['vals']] == [0]
-                if re.match(r'Lt\(Sub\(\(\*self\)\.cap, \(\*self\)\.pos\), \(\*self\)\.low_mark\)', c) and edge_true is False:
+                if edge_true is not None:
+                    nc, nt = guards.normalise(E.switch_cond(blk), edge_true)     # comparison that holds on the exit edge
+                    if nt is True:
+                        c = show(nc)
+                if edge_true is not None and nt is True and re.match(r'Ge\(Sub\(\(\*self\)\.cap, \(\*self\)\.pos\), \(\*self\)\.low_mark\)', c):
                     kind = 'buffered >= low_mark'
-                elif c.startswith('Eq(') and 'Read::read(' in c and c.endswith(', 0)') and edge_true is True:
+                elif edge_true is not None and nt is True and c.startswith('Eq(') and 'Read::read(' in c and c.endswith(', 0)'):
                     kind = 'read == 0'
-                elif c.startswith('Eq(') and 'Read::read(' in c and 'Sub(' in c and '.cap' in c and edge_true is True:
+                elif edge_true is not None and nt is True and c.startswith('Eq(') and 'Read::read(' in c and 'Sub(' in c and '.cap' in c:
                     kind = 'read == free space (buffer full)'
                 elif c.startswith('discr(Try::branch(Read::read(') and edge_true is not None:
                     kind = 'I/O error propagated'
@@ -197,7 +201,7 @@ def check_fill(b, M2):
                     cs_ = show(c)
                     if cs_.startswith('Eq(') and 'Read::read(' in cs_ and truth is True:
                         kind = 'read == 0 / buffer full'
-                    if cs_.startswith('Lt(Sub((*self).cap, (*self).pos), (*self).low_mark)') and truth is False:
+                    if cs_.startswith('Ge(Sub((*self).cap, (*self).pos), (*self).low_mark)') and truth is True:
                         kind = 'buffered >= low_mark'
             if kind:
                 M2.ok(sample={'loop_exit_from_block': x, 'reason': kind})
